@@ -11,6 +11,7 @@ pure, so `step` returns the old state on `.error` by construction; that clause i
 harness on the real code (full query set + state snapshot after every rejected call).
 -/
 import Verif.C17.Lemmas
+import Verif.Generated.TablesC17
 
 namespace Verif.C17
 open Relation
@@ -420,5 +421,54 @@ theorem rejected_after_partial_insert :
 /-- the normaliser identifies spellings: `TypeHierarchy('T', {'A': 't'})` knows `a` -/
 example : okAnd (fun h => contains (fun s => s.map Char.toLower) h ['a'] && h.top == ['t'])
     (construct (fun s => s.map Char.toLower) ['T'] (some [(['A'], .str ['t'])]) none) = true := by decide
+
+/-! ### pins: what the model mirrors, read from the live code on every run -/
+
+/-- Constants, defaults and shape facts of the anchored code (`harness/c17.py: tables()`), compared
+with literal copies.  A change to any of them stops this theorem from checking.
+
+* `c17SplitWhitespace` — the code points < U+3001 on which `_normalize_update`'s `parents.split()`
+  splits — is the model's `spaceCodes` (`isSpace`, `splitWs`).
+* `c17MultiNormAscii` — `_norm` of a plain `MultiHierarchy` on ASCII — is the identity (driver: `id`);
+  `c17TypeNormAscii` / `c17SemiNormAscii` — the normaliser of `tfs.TypeHierarchy` / `semi._new_hierarchy`
+  on ASCII — is `lowerId`; `c17NormIdentity`: these normalisers ARE `_norm_id`, `str.lower`, `str.lower`.
+* `c17Tops` — `.top` of `MultiHierarchy('ToP')`, `TypeHierarchy('ToP')`, `semi._new_hierarchy()` and
+  `semi.TOP_TYPE`: the constructor stores `norm top` (`construct`, `H.new (norm top)`); the harness builds
+  semi histories over `*top*`.
+* `c17NewState` — `(_hier, _loer, _data)` of a fresh `MultiHierarchy('t')` — is `H.new`:
+  the top with the empty parent tuple, the empty child set, no data.
+* `c17Defaults` — `hierarchy/data/normalize_identifier = None` (`construct` with `raw = none` does not call
+  `update`; `update` treats `None` as the empty batch / no data: `raw.getD []`).
+* `c17Consts` — `__init__`: `()` (parents of the top); `__len__`: `1` (`len = hier.length - 1`);
+  `compatible`: `0` (`len(intersection) > 0`, model: `List.any`); keyword names passed on by the wrappers.
+* `c17Names` — the global/attribute names used by `_normalize_update` (`isinstance str split tuple map`:
+  `specParents`, `.map norm`), `_get_eligible` (`all`: `isEligible`), `_validate_parentage`
+  (`_ancestors … intersection`: `redundant`), `_ancestors` (`anc`), and the two wrappers (`str lower`). -/
+theorem c17_pins :
+    Verif.Tables.c17SplitWhitespace = spaceCodes ∧
+    Verif.Tables.c17MultiNormAscii = (List.range 128).map (fun n => [n]) ∧
+    Verif.Tables.c17TypeNormAscii = (List.range 128).map (fun n => (lowerId [Char.ofNat n]).map Char.toNat) ∧
+    Verif.Tables.c17SemiNormAscii = (List.range 128).map (fun n => (lowerId [Char.ofNat n]).map Char.toNat) ∧
+    Verif.Tables.c17NormIdentity = [true, true, true] ∧
+    Verif.Tables.c17Tops = ["ToP", "top", "*top*", "*top*"] ∧
+    Verif.Tables.c17NewState = "({'t': ()}, {'t': set()}, {})" ∧
+    Verif.Tables.c17Defaults =
+      ["__init__:(None, None, None):None", "update:(None, None):None", "validate_update:None:None",
+       "_normalize_update:None:None", "_get_eligible:None:None", "_validate_parentage:None:None",
+       "_ancestors:None:None", "__len__:None:None", "compatible:None:None", "subsumes:None:None",
+       "TypeHierarchy.__init__:(None, None, None):None", "_new_hierarchy:None:None"] ∧
+    Verif.Tables.c17Consts =
+      ["__init__:()", "update:", "validate_update:", "_normalize_update:", "_get_eligible:",
+       "_validate_parentage:", "_ancestors:", "__len__:1", "compatible:0", "subsumes:",
+       "TypeHierarchy.__init__:('hierarchy', 'data', 'normalize_identifier')",
+       "_new_hierarchy:('normalize_identifier',)"] ∧
+    Verif.Tables.c17Names =
+      ["_normalize_update:items isinstance str split tuple map",
+       "_get_eligible:items all HierarchyError format join",
+       "_validate_parentage:set update _ancestors intersection HierarchyError format join sorted",
+       "_ancestors:set add update _ancestors",
+       "TypeHierarchy.__init__:str lower super __init__",
+       "_new_hierarchy:hierarchy MultiHierarchy TOP_TYPE str lower"] := by
+  refine ⟨?_, ?_, ?_, ?_, ?_, ?_, ?_, ?_, ?_, ?_⟩ <;> decide
 
 end Verif.C17
